@@ -632,8 +632,10 @@ def gather_params(fn):
     for n in iter_nodes(fn.node):
         if isinstance(n, ast.Call) and isinstance(n.func, ast.Attribute) and n.func.attr in ('gather', 'gather_shares'):
             for a in n.args:
+                # receivers of method calls inside the argument (`self.trunc(..)`) are not operands
+                recv = {id(c.func.value) for c in ast.walk(a) if isinstance(c, ast.Call) and isinstance(c.func, ast.Attribute)}
                 for x in ast.walk(a):
-                    if isinstance(x, ast.Name) and x.id in ps:
+                    if isinstance(x, ast.Name) and x.id in ps and id(x) not in recv and x.id not in ('self', 'cls'):
                         out.add(x.id)
     return out
 
